@@ -241,6 +241,11 @@ def run(chk: Check) -> None:
     logs = gwrig.load_logs()
     regex_of = {(str(c), v): sch[v] for c, sch in CODES_SCHEMA.items() for v in (" I", "RQ", "RP", " W") if v in sch}
     pairs = gen.schema_pairs()
+    import itertools
+
+    shuffled = list(pairs)
+    rnd.shuffle(shuffled)
+    pair_cycle = itertools.cycle(shuffled)
     n_ep = 4000 if thorough else 150
     chk.rule = (
         "seeded histories (<=120 packets) built from the repo's 37 logs by prefix/deletion/duplication/reordering/splicing between "
@@ -258,6 +263,12 @@ def run(chk: Check) -> None:
             h.insert(rnd.randrange(len(h) + 1), rnd.choice(SPECIALS))
         for _ in range(rnd.randrange(0, 6)):
             f = gen.gen_schema_frame(rnd, pairs, extreme=True)
+            if f:
+                h.insert(rnd.randrange(len(h) + 1), f)
+        # ... and, round-robin over every verb/code of the schema table (so that each is met several times per run, in
+        # several of its payload shapes), six more
+        for _ in range(6):
+            f = gen.gen_schema_frame(rnd, [next(pair_cycle)], extreme=rnd.random() < 0.5)
             if f:
                 h.insert(rnd.randrange(len(h) + 1), f)
         if not h:
